@@ -67,6 +67,22 @@ Definition st_run_op (ct : controller) (E : env) (M : machine) (c : chip) (o : o
   | _ => run_op E M c o
   end.
 
+(* a history of one controller: boot(sark_struct=...) and the direct assignment mc.structs = ... both replace the
+   tables; calls in between use the tables current at the time *)
+Inductive hstep :=
+| HBoot (F : sfile)
+| HAssign (F : sfile)
+| HCall (c : chip) (o : op).
+
+Definition ctl_apply (ct : controller) (s : hstep) : controller :=
+  match s with
+  | HBoot F | HAssign F => ctl_boot F ct
+  | HCall _ _ => ct
+  end.
+
+Definition last_structs (steps : list hstep) (d : sfile) : sfile :=
+  fold_left (fun cur s => match s with HBoot F | HAssign F => F | HCall _ _ => cur end) steps d.
+
 (* ---- from a burst of C06's model to an order of Model/MemOps.v ----
    The chunk list of one read / write is handed to send_scp_burst as commands 0, 1, ..., n-1 (their identity is
    their position); the callbacks the burst invokes, in the order it invokes them, are the order in which the
